@@ -209,6 +209,20 @@ def oracles(ctx):
         exp = Transform(p, o) * Position.from_orientation(tbl[act]) if act in tbl else p
         if np_ != exp:
             ctx.violation('get_next_position disagrees with the pose algebra', {'p': p.yx, 'o': o.name, 'action': act.name})
+    # transforming an area transforms exactly its set of positions: the image is the bounding box of the images of its corners
+    # (small coordinates exhaustively, neighbouring cases differing in one coordinate; Transform * Position is a separate code path)
+    for o in ORIS:
+        for py in range(-2, 3):
+            for px in range(-2, 3):
+                t = Transform(Position(py, px), o)
+                for (y0, y1, x0, x1) in [(y0, y0 + dy, x0, x0 + dx) for y0 in (-2, -1, 0) for dy in (0, 1) for x0 in (-2, -1, 0) for dx in (0, 2)]:
+                    a = Area((y0, y1), (x0, x1))
+                    img = t * a
+                    cs_ = [t * Position(y, x) for y in (y0, y1) for x in (x0, x1)]
+                    exp = (min(c.y for c in cs_), max(c.y for c in cs_), min(c.x for c in cs_), max(c.x for c in cs_))
+                    ctx.case(('area-image', py, px, o.value, y0, y1, x0, x1), True)
+                    if at(img) != exp:
+                        ctx.violation('transforming an area does not give the image of its positions', {'transform': [py, px, o.name], 'area': [y0, y1, x0, x1], 'got': at(img), 'expected': exp})
     hi = 5 if ctx.tier == 'quick' else 8
     for h in range(1, hi + 1):
         for w in range(1, hi + 1):
@@ -243,9 +257,12 @@ def grid_histories(ctx):
             if op == 'rot':
                 o = r.choice(ORIS)
                 hist.append(f'rot {o.name}')
-                rg = g * o
-                back = rg * (-o)
                 cur = tuple(map(tuple, shadow))
+                rg = g * o
+                if wire.cgrid(g) != cur:
+                    ctx.violation(f'rotating a grid by {o.name} modified the grid itself', {'history': list(hist), 'grid': cur})
+                    break
+                back = rg * (-o)
                 same = sorted(map(repr, itt.chain(*wire.cgrid(rg)))) == sorted(map(repr, itt.chain(*cur)))
                 ctx.case(('ghist', cur, o.value, len(hist)), True)
                 if wire.cgrid(back) != cur or not same:
